@@ -48,10 +48,10 @@ def classify(f):
     return "json/%s" % c, ev
 
 
-def reproduce(ck, inp):
+def reproduce(ck, inp, bystander=False):
     p = ck.path("rerun-in.ndjson")
     with open(p, "w") as f:
-        f.write(json.dumps({"input": inp}) + "\n")
+        f.write(json.dumps({"input": inp, "bystander": bool(bystander)}) + "\n")
     ck.drive("jsonp", "file", "-in", p, "-out", ck.path("rerun.ndjson"))
     again = ck.validate("json", "JsonTrace", "JsonTrace.cfg", ck.path("rerun.ndjson"), shards=1)
     ck.cov["traces_validated_against_impl"] -= 1
@@ -65,15 +65,16 @@ def judge(ck, fails, origin):
             ck.violation(sig, "", {})
             continue
         inp = f["trace"][0].get("input")
-        if not reproduce(ck, inp):
+        by = bool(f["trace"][0].get("bystander"))
+        if not reproduce(ck, inp, by):
             ck.fatal("rejected trace did not reproduce: %s" % sig)
         try:
             txt = bytes(inp).decode("utf-8")
         except Exception:
             txt = repr(bytes(inp))
-        ck.violation(sig, "json.Parser on %s (encoding/json valid=%s): event %s rejected by JsonStream.tla" % (
-            json.dumps(txt), f["trace"][0].get("valid"), json.dumps({k: v for k, v in ev.items() if k not in ("data", "t")})[:300]),
-            {"suite": "jsonp", "origin": origin, "input": inp, "trace": f["trace"][: f["i"] + 1][-10:], "rejected_event_index": f["i"],
+        ck.violation(sig, "json.Parser on %s (encoding/json valid=%s%s): event %s rejected by JsonStream.tla" % (
+            json.dumps(txt), f["trace"][0].get("valid"), "; a second Parser over another document was stepped between the calls" if by else "", json.dumps({k: v for k, v in ev.items() if k not in ("data", "t")})[:300]),
+            {"suite": "jsonp", "origin": origin, "input": inp, "bystander": by, "trace": f["trace"][: f["i"] + 1][-10:], "rejected_event_index": f["i"],
              "how": "bin/check C10 --replay <this file> parses the input again and validates the trace with spec/json/JsonTrace.tla"})
 
 
@@ -111,5 +112,5 @@ def replay(ck, path):
     obj = json.load(open(path))
     ck.cov["samples"] = [{"input": obj["input"]}]
     ck.cov["evaluations"] = 1
-    if reproduce(ck, obj["input"]):
+    if reproduce(ck, obj["input"], obj.get("bystander")):
         ck.violation(obj["sig"], obj.get("what", "replayed input rejected again"), {"input": obj["input"]})
